@@ -2020,4 +2020,270 @@ Section WithOrd.
     destruct (HK R) as (A & _ & _). apply (k_seen A Hc).
   Qed.
 
-End WithOrd.
+  (* ================================================================ progress *)
+
+  (* weight of a handle: a done-callback leaves nothing behind, the last step
+     of a cancelled task leaves a done-callback, a step of the live monitor of
+     resource k leaves at most wake-ups of live monitors of resources below k
+     (its subscribers) *)
+  Definition wt (s : state) (h : handle) : nat :=
+    match h with
+    | HDoneCb _ => 1
+    | HStart tid | HWake tid =>
+        if t_cancel (tasks s tid) then 2 else t_key (tasks s tid) + 3
+    end.
+
+  Definition KCsame (s s' : state) : Prop :=
+    forall tid, t_key (tasks s' tid) = t_key (tasks s tid) /\
+                t_cancel (tasks s' tid) = t_cancel (tasks s tid).
+
+  Lemma KCsame_refl : forall s, KCsame s s.
+  Proof. intros s tid. auto. Qed.
+
+  Lemma KCsame_trans : forall s1 s2 s3, KCsame s1 s2 -> KCsame s2 s3 -> KCsame s1 s3.
+  Proof.
+    intros s1 s2 s3 A B tid. destruct (A tid), (B tid). split; congruence.
+  Qed.
+
+  Lemma KCsame_wt : forall s s' h, KCsame s s' -> wt s' h = wt s h.
+  Proof.
+    intros s s' h A. destruct h as [tid | tid | tid]; simpl; auto;
+      destruct (A tid) as [-> ->]; auto.
+  Qed.
+
+  Lemma Mild_KCsame : forall e s s', Mild e s s' -> KCsame s s'.
+  Proof. intros e s s' F tid. split; [apply (f_key F) | apply (f_cancel F)]. Qed.
+
+  Definition Low (k : nat) (s : state) (h : handle) : Prop :=
+    exists g, h = HWake g /\ t_cancel (tasks s g) = false /\ t_key (tasks s g) < k.
+
+  Definition Grows (k : nat) (s s' : state) : Prop :=
+    KCsame s s' /\ exists new, ready s' = ready s ++ new /\ Forall (Low k s) new.
+
+  Lemma Low_same : forall k s s' h, KCsame s s' -> Low k s' h -> Low k s h.
+  Proof.
+    intros k s s' h A (g & -> & H1 & H2). exists g. destruct (A g) as [E1 E2].
+    splits; auto; congruence.
+  Qed.
+
+  Lemma Grows_refl : forall k s, Grows k s s.
+  Proof.
+    intros. split; [apply KCsame_refl | ]. exists []. split; [now rewrite app_nil_r | constructor].
+  Qed.
+
+  Lemma Grows_same : forall k s s', tasks s' = tasks s -> ready s' = ready s -> Grows k s s'.
+  Proof.
+    intros k s s' E1 E2. split.
+    - intros tid. now rewrite E1.
+    - exists []. rewrite E2. split; [now rewrite app_nil_r | constructor].
+  Qed.
+
+  Lemma Grows_trans : forall k s1 s2 s3, Grows k s1 s2 -> Grows k s2 s3 -> Grows k s1 s3.
+  Proof.
+    intros k s1 s2 s3 [A (n1 & E1 & L1)] [B (n2 & E2 & L2)]. split.
+    - eapply KCsame_trans; eauto.
+    - exists (n1 ++ n2). split.
+      + rewrite E2, E1. now rewrite app_assoc.
+      + apply Forall_app. split; auto.
+        eapply Forall_impl; [ | exact L2]. intros h. now apply Low_same.
+  Qed.
+
+  Lemma put_event_Grows : forall run k q e s r,
+    M run s -> (forall k', Ktask s k') -> queues s r = Some q -> r < k ->
+    Grows k s (put_event q e s).
+  Proof.
+    intros run k q e s r HM HT Hq Hr.
+    split; [eapply Mild_KCsame, put_event_Mild | ].
+    unfold put_event. destruct (q_shut (heap s q)); [exists []; split; [now rewrite app_nil_r | constructor] | ].
+    destruct (q_getter (heap s q)) as [g | ] eqn:Hg.
+    - apply (m_getter HM) in Hg. destruct Hg as [Hst Htq].
+      unfold wake. ssimpl. rewrite Hst. ssimpl.
+      exists [HWake g]. split; auto. constructor; [ | constructor].
+      assert (Hc : cur s g).
+      { destruct (cur_dec s g) as [H | H]; auto.
+        destruct (m_noncur HM H) as [H1 | [_ [H1 | H1]]]; congruence. }
+      destruct (HT _ _ Hc) as (C1 & C2 & C3).
+      assert (queues s (t_key (tasks s g)) = Some q) by (rewrite <- C3; [auto | congruence]).
+      assert (t_key (tasks s g) = r) by (eapply (m_qinj HM); eauto).
+      exists g. splits; auto. lia.
+    - ssimpl. exists []. split; [now rewrite app_nil_r | constructor].
+  Qed.
+
+  Lemma puts_Grows : forall run k e l s,
+    M run s -> (forall k', Ktask s k') ->
+    (forall n t, e = ERes n t -> t <= clock s) ->
+    (forall q, In q l -> exists r, queues s r = Some q /\ r < k) ->
+    Grows k s (puts e l s).
+  Proof.
+    induction l as [ | q l IH]; intros s HM HT He Hl; simpl; [apply Grows_refl | ].
+    destruct (Hl q (or_introl eq_refl)) as (r & Hq & Hr).
+    pose proof (put_event_Mild q e s) as F.
+    eapply Grows_trans; [eapply put_event_Grows; eauto | ].
+    apply IH.
+    - apply put_event_M; auto.
+    - intros k'. eapply Mild_Ktask; eauto.
+    - rewrite (f_clock F). auto.
+    - intros q' Hq'. rewrite (f_queues F). apply Hl. now right.
+  Qed.
+
+  Lemma notify_Grows : forall run n t s,
+    M run s -> (forall k', Ktask s k') -> t <= clock s -> Grows n s (notify n t s).
+  Proof.
+    intros run n t s HM HT Ht. rewrite notify_puts. eapply puts_Grows; eauto.
+    - intros n' t' E. inversion E; subst; auto.
+    - intros q Hq. apply active_queues_In in Hq. destruct Hq as (r & Hr & Hq).
+      exists r. split; auto. apply (m_inverse HM) in Hr. apply (m_upward HM) in Hr. lia.
+  Qed.
+
+  Lemma reprepare_Grows : forall tid k q s,
+    Running tid k q s -> Grows k s (reprepare k s).
+  Proof.
+    intros tid k q s HR.
+    destruct (Running_facts HR) as (Hst & Hkey & Hcan & Htq & Hcached & Hshut & Hnk & Hpt).
+    destruct HR as ([HM HK] & Hr & Hq).
+    unfold reprepare. destruct (cache s k) as [e | ] eqn:Hc; [ | congruence].
+    destruct (HK k) as (A & B & C).
+    set (s1 := tick s). set (s2 := tick s1).
+    set (s3 := set_cache (fupd (cache s2) k (Some (mkC (c_version e) (c_deps e) (seen_now (c_deps e) s1)))) s2).
+    assert (HM3 : M (Some tid) s3) by (apply set_cache_M, tick_M, tick_M; auto).
+    assert (Hup : forall r, In r (c_deps e) -> k < r /\ r < bound s3).
+    { intros r Hin. apply (m_upward HM). rewrite (k_subs A), Hc. now apply dedup_In. }
+    unfold Loop.handle_notifications.
+    set (s4 := set_ptimes (fupd (ptimes s3) k (Some (clock s1))) s3).
+    assert (HM4 : M (Some tid) s4) by (apply set_ptimes_M; auto; unfold s3, s2, s1; ssimpl; lia).
+    rewrite (subscribe_only_to_eq (run := Some tid)) by auto.
+    set (s5 := sub_result k (c_deps e) s4).
+    assert (HM5 : M (Some tid) s5) by (apply sub_result_M; auto).
+    assert (G : Grows k s5 (notify k (clock s2) s5)).
+    { eapply notify_Grows with (run := Some tid); auto.
+      all: try (intros k'; destruct (HK k') as (_ & _ & C'); exact C').
+      all: try (unfold s5, sub_result, s4, s3, s2, s1; ssimpl; lia). }
+    assert (E : match c_deps e with
+                | [] => bump k (notify k (clock s2) s5)
+                | _ :: _ => bump k (notify k (clock s2) s5)
+                end = bump k (notify k (clock s2) s5)) by (destruct (c_deps e); auto).
+    rewrite E. exact G.
+  Qed.
+
+  Lemma monitor_loop_Grows : forall fuel tid k q s,
+    Running tid k q s -> List.length (q_items (heap s q)) < fuel ->
+    Grows k s (monitor_loop fuel tid q s).
+  Proof.
+    induction fuel as [ | f IH]; intros tid k q s HR Hlen; [lia | ].
+    destruct (Running_facts HR) as (Hst & Hkey & Hcan & Htq & Hcached & Hshut & Hnk & Hpt).
+    simpl. destruct (q_items (heap s q)) as [ | e rest] eqn:Hitems.
+    - rewrite Hshut. unfold suspend. rewrite Hcan.
+      destruct (q_getter (heap s q)).
+      + unfold set_err. destruct (err s); apply Grows_same; reflexivity.
+      + split.
+        * intros tid'. ssimpl. fupd_case tid' tid; ssimpl; auto.
+        * exists []. ssimpl. split; [now rewrite app_nil_r | constructor].
+    - pose proof (pop_Running HR Hitems) as HR1.
+      set (s1 := upd_queue q (fun Q => mkQ rest (q_shut Q) (q_getter Q)) s) in *.
+      destruct e as [ | n t]; [exfalso; apply Hnk; now left | ].
+      change (tasks s1 tid) with (tasks s tid). rewrite Hkey.
+      change (ptimes s1 k) with (ptimes s k).
+      destruct (ptimes s k) as [p | ]; [ | congruence].
+      assert (Hlen1 : List.length (q_items (heap s1 q)) < f).
+      { unfold s1. ssimpl. rewrite fupd_eq. simpl in *. lia. }
+      destruct (t <=? p).
+      + change (Grows k s1 (monitor_loop f tid q s1)). eapply IH; eauto.
+      + destruct (reprepare_Running HR1) as [HR2 Hh].
+        change (Grows k s1 (monitor_loop f tid q (reprepare k s1))).
+        eapply Grows_trans; [eapply reprepare_Grows; eauto | ].
+        eapply IH; eauto. rewrite Hh. exact Hlen1.
+  Qed.
+
+  (* one handle: what it leaves behind is strictly lighter than itself, and the
+     weights of the handles still waiting do not change *)
+  Lemma run_handle_wt : forall s h r,
+    Inv None s -> ready s = h :: r ->
+    let s' := run_handle h (set_ready r s) in
+    exists new, ready s' = r ++ new /\
+                (forall h', In h' new -> wt s' h' < wt s h) /\
+                (forall h', In h' r -> wt s' h' = wt s h').
+  Proof.
+    intros s h r HI Hr s'. pose proof HI as [HM HK].
+    assert (Hin : In h (ready s)) by (rewrite Hr; now left).
+    destruct (pop_ready (m_nodup HM) Hr) as (Hnd & Hnin & Hrin).
+    (* the two live cases share their conclusion *)
+    assert (Live : forall tid k s0,
+              (h = HStart tid \/ h = HWake tid) -> t_cancel (tasks s tid) = false ->
+              t_key (tasks s tid) = k ->
+              KCsame s s0 -> ready s0 = r -> Grows k s0 s' ->
+              exists new, ready s' = r ++ new /\
+                (forall h', In h' new -> wt s' h' < wt s h) /\
+                (forall h', In h' r -> wt s' h' = wt s h')).
+    { intros tid k s0 Hh Hcan Hkey A0 Er [A1 (new & E & L)].
+      exists new. rewrite E, Er. splits; auto.
+      - intros h' Hh'. rewrite Forall_forall in L. destruct (L _ Hh') as (g & -> & L1 & L2).
+        rewrite (KCsame_wt _ A1). simpl. rewrite L1.
+        assert (wt s h = k + 3) by (destruct Hh as [-> | ->]; simpl; rewrite Hcan, Hkey; auto).
+        lia.
+      - intros h' _. apply KCsame_wt. eapply KCsame_trans; eauto. }
+    (* the cancelled cases too *)
+    assert (Dead : forall tid c,
+              (h = HStart tid /\ status s tid = TNew) \/ (h = HWake tid /\ status s tid = TWoken) ->
+              t_cancel (tasks s tid) = true ->
+              s' = finish tid c (set_ready r s) ->
+              exists new, ready s' = r ++ new /\
+                (forall h', In h' new -> wt s' h' < wt s h) /\
+                (forall h', In h' r -> wt s' h' = wt s h')).
+    { intros tid c Hh Hcan ->. unfold finish. ssimpl. exists [HDoneCb tid]. splits; auto.
+      - intros h' [<- | []]. simpl. destruct Hh as [[-> _] | [-> _]]; simpl; rewrite Hcan; lia.
+      - intros h' Hh'. destruct h' as [t' | t' | t']; simpl; auto.
+        + assert (t' <> tid).
+          { intros ->. destruct Hh as [[-> _] | [_ Hs]]; [tauto | ].
+            apply Hrin in Hh'. destruct Hh' as [Hh' _]. apply (m_start HM) in Hh'. congruence. }
+          now rewrite fupd_neq.
+        + assert (t' <> tid).
+          { intros ->. destruct Hh as [[_ Hs] | [-> _]]; [ | tauto].
+            apply Hrin in Hh'. destruct Hh' as [Hh' _]. apply (m_wake HM) in Hh'. congruence. }
+          now rewrite fupd_neq. }
+    destruct h as [tid | tid | tid].
+    - (* HStart *)
+      pose proof (proj1 (m_start HM tid) Hin) as Hst.
+      unfold s', run_handle in *. ssimpl. rewrite Hst in *.
+      destruct (t_cancel (tasks s tid)) eqn:Hcan.
+      + eapply Dead; eauto.
+      + assert (Hc : cur s tid).
+        { destruct (cur_dec s tid) as [H | H]; auto.
+          destruct (m_noncur HM H) as [H1 | [H1 _]]; congruence. }
+        destruct (cur_queue HI Hc) as (q & Hq & _ & _).
+        unfold Loop.register in *. ssimpl. rewrite Hq in *.
+        set (s0 := upd_task tid (with_queue q) (upd_task tid (with_status TRunning) (set_ready r s))).
+        eapply Live with (s0 := s0) (tid := tid); eauto.
+        * intros tid'. unfold s0. ssimpl. fupd_case tid' tid; ssimpl; auto; try (rewrite fupd_eq; auto).
+        * unfold Loop.monitor. eapply monitor_loop_Grows; [ | apply Nat.lt_succ_diag_r].
+          eapply enter_Running with (s := s) (h := HStart tid); eauto.
+          unfold s0. constructor; ssimpl; auto.
+          -- rewrite !fupd_eq. unfold with_queue, with_status. simpl. rewrite Hcan. reflexivity.
+          -- intros tid' Hne. now rewrite !fupd_neq.
+    - (* HWake *)
+      pose proof (proj1 (m_wake HM tid) Hin) as Hst.
+      unfold s', run_handle in *. ssimpl. rewrite Hst in *.
+      destruct (t_cancel (tasks s tid)) eqn:Hcan.
+      + eapply Dead; eauto.
+      + assert (Hc : cur s tid).
+        { destruct (cur_dec s tid) as [H | H]; auto.
+          destruct (m_noncur HM H) as [H1 | [H1 _]]; congruence. }
+        destruct (cur_queue HI Hc) as (q & Hq & _ & Htq).
+        rewrite Htq in * by (rewrite Hst; discriminate).
+        set (s0 := upd_task tid (with_status TRunning) (set_ready r s)).
+        eapply Live with (s0 := s0) (tid := tid); eauto.
+        * intros tid'. unfold s0. ssimpl. fupd_case tid' tid; ssimpl; auto.
+        * unfold Loop.monitor. eapply monitor_loop_Grows; [ | apply Nat.lt_succ_diag_r].
+          eapply enter_Running with (s := s) (h := HWake tid); eauto.
+          unfold s0. constructor; ssimpl; auto.
+          -- rewrite fupd_eq. unfold with_status. simpl. rewrite Hcan, Htq by (rewrite Hst; discriminate). reflexivity.
+          -- intros tid' Hne. now rewrite fupd_neq.
+    - (* HDoneCb *)
+      assert (E : s' = set_ready r s).
+      { assert (Hd : status s tid = TDone) by (apply (m_donecb HM); auto).
+        unfold s', run_handle. ssimpl. destruct (rtasks s (t_key (tasks s tid))) as [tid' | ] eqn:Hrt; auto.
+        destruct (Nat.eqb_spec tid' tid); auto. subst.
+        destruct (HK (t_key (tasks s tid))) as (_ & _ & C). destruct (C _ Hrt) as (_ & H2 & _). tauto. }
+      rewrite E. exists []. ssimpl. splits; auto.
+      + now rewrite app_nil_r.
+      + intros h' [].
+  Qed.
